@@ -95,3 +95,27 @@ Proof.
   destruct (Z.eqb_spec c 2); [subst; reflexivity|]. destruct (Z.eqb_spec c 3); [subst; reflexivity|]. reflexivity.
 Qed.
 Print Assumptions C19_errors_representable.
+
+(* NewDemuxer and the options DemuxerOptPacketSkipper / DemuxerOptPacketsParser are regenerated too (Gen/RestGen.v,
+   go/gen/restgen.go).  For EVERY option list the regenerated constructor (instantiated with the model's types:
+   new_demuxer of Proofs/RestGenDemux.v) stores as packet skipper and as packets parser exactly what the last option of
+   that kind handed over (nil when there is none: every packet is kept, every group parsed by the library), and the rest
+   of the state is init_dstate: the `skip` and `prs` arguments of the theorems above are the callbacks of the options.
+   An option that stores its callback in another field, or a constructor that resets them, breaks this proof. *)
+Require Import Gen.RestGen Proofs.RestGenPm Proofs.RestGenDemux.
+Theorem C19_options_are_source : forall (PP PS : Type) r (opts : list (gopt PP PS)),
+  let d := new_demuxer PP PS r opts in
+  dstate_of PP PS d = init_dstate r (opts_packet_size PP PS opts 0) /\
+  Demuxer_optPacketSize d = opts_packet_size PP PS opts 0 /\
+  Demuxer_optPacketsParser d = opts_parser PP PS opts None /\
+  Demuxer_optPacketSkipper d = opts_skipper PP PS opts None /\
+  Demuxer_dataBuffer d = [] /\ Demuxer_packetBuffer d = None /\ Demuxer_packetPool d = Some [] /\
+  Demuxer_programMap d = Some (newProgramMap lm_make) /\ Demuxer_r d = r.
+Proof. exact new_demuxer_is_generated. Qed.
+Print Assumptions C19_options_are_source.
+Example C19_options_are_source_inhabited : forall r,
+  let d := new_demuxer nat nat r [DemuxerOptPacketSize 192; DemuxerOptPacketSkipper (Some 1%nat); DemuxerOptLogger tt;
+                                  DemuxerOptPacketsParser (Some 2%nat); DemuxerOptPacketSize 204;
+                                  DemuxerOptPacketSkipper None] in
+  dstate_of nat nat d = init_dstate r 204 /\ Demuxer_optPacketsParser d = Some 2%nat /\ Demuxer_optPacketSkipper d = None.
+Proof. exact new_demuxer_example. Qed.
